@@ -2,14 +2,15 @@ from propcommon import *  # noqa
 
 CFG = dict(
         level="proof",
-        lean_modules=["ElysModel.Props.C14"],
-        props_files=["ElysModel/Props/C14.lean"],
+        lean_modules=["ElysModel.Props.C14", "ElysModel.Props.C14Src"],
+        pre_cmds=[GO2LEAN],
+        props_files=["ElysModel/Props/C14.lean", "ElysModel/Props/C14Src.lean"],
         runs=[dict(mode="c14", n_quick=600, n_thorough=20000, shards_quick=8, shards_thorough=14)],
         rule="op sequences (vest/claim/cancel/vest-now/gov schedule change at generated heights) on the real commitment "
              "msg server, one fresh account per sequence; an evaluation is one op; non-trivial = the op succeeded; "
              "distinct = distinct (op, arguments, result, observed entries) tuples",
-        trusted_base=COMMON_TB + ["msg server driven directly with ctx.WithBlockHeight and CacheContext per op (not through FinalizeBlock)"],
-        assumptions=["one vesting denom (ELYS) per account; amounts positive (ValidateBasic); NumBlocks > 0 except in the witness"],
+        trusted_base=COMMON_TB + [SRC_TB, "msg server driven directly with ctx.WithBlockHeight and CacheContext per op (not through FinalizeBlock)"],
+        assumptions=[SRC_ASSUME, "one vesting denom (ELYS) per account; amounts positive (ValidateBasic); NumBlocks > 0 except in the witness"],
         explanation="Theorems C14.* over all op sequences of the vesting model; model = code checked by differential op sequences; "
                     "property predicates (claim succeeds, monotone, bounds, conservation, completion, vest-now) evaluated on every real observation.",
     )
